@@ -10,16 +10,50 @@ TB = ("Trusted: Coq 8.16.1 kernel (coqc, vm_compute; no native_compute), no axio
       "generators + Exec/Cases.v checkers that tie it to /repo by differential correspondence; third-party code "
       "(bigint, cosmwasm-std, cw20-base, cw-multi-test) is modelled, not verified.")
 
+TECH = "Coq proof over a hand-written Gallina model (closed-form lemma + lia/nia); model-vs-code differential correspondence evaluated inside coqc (vm_compute)"
+
 CLAIMED = {
+    "C01": dict(
+        text="Coq theorems C01_fn (outside the recorded class kf_c01: paid <= y*a/(x+a), reserve product does not fall, ask reserve stays positive), "
+             "C01_fn_window_exact (the class is exactly the violating set), C01_refuted / C01_drain_refuted (witnesses, known finding KF-ceil-window) "
+             "over the model of compute_swap for all 128-bit operands and rates in [0,1]; tied to the real compute_swap by the differential "
+             "correspondence; witnesses replayed on the real code every run.  System-level statement is covered by the world family when built.",
+        design_ref="DESIGN.md section 8 (C01), section 9"),
+    "C05": dict(
+        text="Coq theorems C05_share (m = min_i floor(d_i*T/r_i) as a sandwich) and C05_first (whitelist, minimums, floor sqrt) over the model of "
+             "calculate_lp_token_amount_to_user; tied to the real function by the differential correspondence.  PARTIAL: the ledger-level half "
+             "(exact deposits pulled, reserved unit, zero-share rejection) needs the world model.",
+        design_ref="DESIGN.md section 8 (C05)"),
     "C06": dict(
         text="Coq theorems C06_band / C06_commission / C06_commission_stays / C06_sum / C06_mono / C06_ok_iff over the "
              "model of compute_swap for all 128-bit operands and all rates in [0,1]; the model is tied to "
              "haloswap::formulas::compute_swap by a differential correspondence run (boundary-directed + random) on "
              "every invocation, and the property's decidable checker is also evaluated on the implementation's outputs.",
-        design_ref="DESIGN.md section 8 (C06)",
-        technique="Coq proof (closed-form lemma + nia) over a hand-written Gallina model; model-vs-code differential correspondence evaluated inside coqc",
-    ),
+        design_ref="DESIGN.md section 8 (C06)"),
+    "C08": dict(
+        text="One Coq theorem per Uint256/Decimal256 operator of math.rs (exact_or_abort: succeeds exactly under the stated no-abort condition with "
+             "the floor-rounded mathematical value given as a sandwich, aborts otherwise), uniqueness of the floor and no-wrap, limb-level "
+             "widening/narrowing; tied to the real operators on a structured operand grid.  PARTIAL: bigint::U256's limb algorithms are third-party "
+             "code modelled as exact arithmetic, tied by the grid only.",
+        design_ref="DESIGN.md section 8 (C08)"),
+    "C10": dict(
+        text="Coq theorems C10_belief_sound / _sound_rational / _complete, C10_spread_sound / _complete, C10_abort_set, C10_normalise over the "
+             "model of assert_max_spread for all 128-bit amounts, all 18-digit limits and all decimals; tied to the real guard by boundary-searched "
+             "differential cases over the decimals matrix.  System level (which decimals/amounts the pair passes) via the world family.",
+        design_ref="DESIGN.md section 8 (C10)"),
+    "C12": dict(
+        text="Coq theorems C12_reverse (offer = floor(x*y/(y-t)) - x with the grossed-up ask t inside its rounding bound), C12_reverse_never_above, "
+             "C12_reverse_closed_form (exact abort set) over the model of compute_offer_amount; tied to the real function by the differential "
+             "correspondence.  PARTIAL: forward quote = execution and the router folds need the world model.",
+        design_ref="DESIGN.md section 8 (C12)"),
+    "C15": dict(
+        text="Coq theorems C15_sound, C15_complete, C15_over_100, C15_no_abort, C15_absent over the model of assert_slippage_tolerance for all "
+             "128-bit deposits/reserves and all tolerances; tied to the real guard by boundary-searched differential cases.  System level "
+             "(reserves net of the native deposit) via the world family.",
+        design_ref="DESIGN.md section 8 (C15)"),
 }
+for _v in CLAIMED.values():
+    _v.setdefault("technique", TECH)
 
 NOT_YET = "check not built yet in this development (work in progress; see DESIGN.md section 11 build order)"
 
